@@ -21,7 +21,8 @@ RULE = ("all call shapes: form in {Predicate subclass, @symbolic_function functi
         "invocation per candidate binding with every parameter bound to the value written in its position, and the "
         "query's answers equal filtering the domain with the concrete call; all-concrete calls run once, immediately; "
         "plus pairs of DIFFERENT callables that share module and qualified name but declare their parameters in another "
-        "order or number, used one after the other in both orders. "
+        "order or number, used one after the other in both orders; plus bodies returning non-bool values (0/1, None/str, "
+        "[]/[1], 0.0/0.5) used as a condition, under not_, and as an operand of == / != with the falsy and the truthy value. "
         "non-trivial = shapes with at least one symbolic and one positional argument")
 ASSUMPTIONS = ["a Predicate called with concrete arguments returns the predicate instance, whose call gives the truth value"]
 BOUNDS = {"quick": {"arity": 3, "defaults": 2}, "thorough": {"arity": 3, "defaults": 2, "domains": "two orders"}}
@@ -128,6 +129,16 @@ def cases(tier, seed):
     for form in ("pred", "func", "meth"):
         for s in shapes():
             out.append((form,) + s)
+    # results that are not bools: a body returning 0/1, None/"yes", []/[1] - used as a condition, under not_, and as an
+    # operand of a comparison with its falsy and with its truthy value
+    for form in ("func", "pred"):
+        for kind in RESULT_KINDS:
+            for use in ("cond", "not", "eq_falsy", "eq_truthy", "ne_falsy"):
+                for k in (0, 1, 2):
+                    for srcs in itertools.product(("x", "x.a", "y", "conc"), repeat=2):
+                        if all(s_ == "conc" for s_ in srcs):
+                            continue
+                        out.append(("result_kind", form, kind, use, k, srcs))
     # homonyms: two DIFFERENT callables with the same module and qualified name (made by a factory, redefined, ...)
     # whose parameters come in different orders; both are used in one process, in both orders of first use
     for form in ("func", "pred"):
@@ -139,6 +150,92 @@ def cases(tier, seed):
                             continue
                         out.append(("homonym", form, orders, first, k, srcs))
     return out
+
+
+RESULT_KINDS = {"int": (0, 1), "none_or_str": (None, "yes"), "list": ([], [1]), "float": (0.0, 0.5)}
+_KIND_NS = {}
+
+
+def kind_callable(form, kind):
+    """a symbolic function / Predicate with parameters (p1, p2) whose body returns a non-bool that is falsy exactly when
+    truth(p1, p2) is False"""
+    key = (form, kind)
+    if key not in _KIND_NS:
+        from krrood.entity_query_language.predicate import Predicate, symbolic_function
+        falsy, truthy = RESULT_KINDS[kind]
+        conv = lambda t: (type(truthy)(truthy) if not isinstance(truthy, list) else list(truthy)) if t else \
+            (None if falsy is None else type(falsy)(falsy) if not isinstance(falsy, list) else list(falsy))
+        if form == "func":
+            @symbolic_function
+            def value_of(p1, p2):
+                LOG.append(("value_of", dict(p1=p1, p2=p2)))
+                return conv(truth(p1, p2))
+            _KIND_NS[key] = value_of
+        else:
+            @dataclass(eq=False)
+            class ValueOf(Predicate):
+                p1: object
+                p2: object
+
+                def __call__(self):
+                    LOG.append(("ValueOf", dict(p1=self.p1, p2=self.p2)))
+                    return conv(truth(self.p1, self.p2))
+            ValueOf.__name__ = ValueOf.__qualname__ = f"ValueOf_{kind}"
+            _KIND_NS[key] = ValueOf
+    return _KIND_NS[key]
+
+
+def run_result_kind(case):
+    from krrood.entity_query_language.entity import entity, set_of, let, not_
+    from krrood.entity_query_language.quantify_entity import an
+    from krrood.entity_query_language.symbolic import SymbolicExpression
+    _, form, kind, use, k, srcs = case
+    res = CaseResult()
+    res.features = {"result_kind:" + kind, "use:" + use}
+    falsy, truthy = RESULT_KINDS[kind]
+    X = [PItem("x0", 0), PItem("x1", 1), PItem("x2", 2), PItem("x3", 3)]
+    Y = [PItem("y0", 0), PItem("y1", 1)]
+    x = let(PItem, list(X), name="x")
+    y = let(PItem, list(Y), name="y")
+    sym = {"x": x, "x.a": x.a, "y": y, "conc": 7}
+    conc = lambda s_, bx, by: bx if s_ == "x" else bx.a if s_ == "x.a" else by if s_ == "y" else 7
+    names = ["p1", "p2"]
+    pos = [sym[s_] for s_ in srcs[:k]]
+    kw = {names[i]: sym[srcs[i]] for i in range(k, 2)}
+    target = kind_callable(form, kind)
+    label = (f"{'function' if form == 'func' else 'Predicate'} returning {falsy!r}/{truthy!r}, called as "
+             f"({', '.join(srcs[:k])}{', ' if k and kw else ''}{', '.join(f'{a}={srcs[names.index(a)]}' for a in kw)}), used as {use}")
+    del LOG[:]
+    try:
+        r = target(*pos, **kw)
+        if not isinstance(r, SymbolicExpression):
+            res.failures.append(Failure("ran-at-construction", f"{label}: returned {r!r} instead of an expression"))
+            return res
+        cond = {"cond": lambda: r, "not": lambda: not_(r), "eq_falsy": lambda: r == falsy, "eq_truthy": lambda: r == truthy,
+                "ne_falsy": lambda: r != falsy}[use]()
+        uses_y = "y" in srcs
+        uses_x = any(s_ in ("x", "x.a") for s_ in srcs)
+        if uses_x and uses_y:
+            rows = [(row[x], row[y]) for row in an(set_of([x, y], cond)).evaluate()]
+        elif uses_y:
+            rows = [(None, o) for o in an(entity(y, cond)).evaluate()]
+        else:
+            rows = [(o, None) for o in an(entity(x, cond)).evaluate()]
+    except Exception as e:
+        res.failures.append(Failure("crash", f"{label}: {type(e).__name__}: {e}"))
+        return res
+    cands = [(bx, by) for bx in (X if uses_x else [None]) for by in (Y if uses_y else [None])]
+    t = lambda bx, by: truth(conc(srcs[0], bx, by), conc(srcs[1], bx, by))
+    want = {"cond": lambda v: v, "not": lambda v: not v, "eq_falsy": lambda v: not v, "eq_truthy": lambda v: v,
+            "ne_falsy": lambda v: v}[use]
+    exp_rows = [(bx, by) for bx, by in cands if want(t(bx, by))]
+    key = lambda rows: sorted((a.name if a else "-", b.name if b else "-") for a, b in rows)
+    if key(rows) != key(exp_rows):
+        res.failures.append(Failure("wrong-answers", f"{label}: answers {key(rows)}, the concrete calls give {key(exp_rows)}"))
+    if k >= 1:
+        res.nontrivial_key = case
+    res.outcome_key = ("result_kind", tuple(key(rows)))
+    return res
 
 
 def make_homonym(form, order):
@@ -240,6 +337,8 @@ def run_case(case):
     from krrood.entity_query_language.symbolic import SymbolicExpression
     if case[0] == "homonym":
         return run_homonym(case)
+    if case[0] == "result_kind":
+        return run_result_kind(case)
     ns = define_all()
     form, n, d, given, k, korder, srcs = case
     res = CaseResult()
@@ -350,7 +449,7 @@ def cluster_key(case, f):
 
 def finish(run):
     if run.exhaustive and not run.failures:
-        for k in ("form:pred", "form:func", "form:meth", "concrete", "symbolic", "homonym:func", "homonym:pred"):
+        for k in ("form:pred", "form:func", "form:meth", "concrete", "symbolic", "homonym:func", "homonym:pred", "result_kind:none_or_str", "use:eq_falsy"):
             if not run.features.get(k):
                 raise HarnessError("vacuous: " + k)
 
